@@ -239,16 +239,8 @@ pub enum C03Case {
 fn route_specs(c: &crate::gen::net_corridor::CorridorSpec, cor: &crate::gen::net_corridor::Corridor, route: &[usize], tt: u8) -> Vec<LinkSpec> {
     let mut out = vec![];
     for l in route {
-        // find (stage, track) of this link index
-        let mut seg = None;
-        for (si, st) in c.stages.iter().enumerate() {
-            for (t, s) in std::iter::once(&st.main).chain(st.side.iter()).enumerate() {
-                if cor.fwd[si][t] as usize == *l || cor.rev[si][t] as usize == *l {
-                    seg = Some(s.clone());
-                }
-            }
-        }
-        let seg = seg.expect("link on route exists");
+        let _ = c;
+        let seg = cor.seg_of_link[*l].clone().expect("link on route exists");
         out.push(LinkSpec {
             length: seg.length,
             elevs: vec![(0.0, 0.0), (seg.length, 0.0)],
@@ -345,7 +337,7 @@ pub struct C03;
 impl C03 {
     fn gen(g: &mut Gen, tier: Tier) -> C03Case {
         if g.bool(0.12) {
-            let dc = crate::props::corridor::gen_dispatch_case(g, 3, &crate::gen::net_corridor::CorridorOpts { max_stages: 5, max_seg: 9000.0, ..Default::default() });
+            let dc = crate::props::corridor::gen_dispatch_case(g, 3, &crate::gen::net_corridor::CorridorOpts { max_stages: 5, max_seg: 9000.0, p_branch: 0.3, ..Default::default() });
             return C03Case::Timed { timed: dc };
         }
         C03Case::Chain(gen_slts_case(g, tier, false))
